@@ -187,6 +187,16 @@ CHECKS = {
         "scoping corner) are counted as reference errors.",
         "DESIGN.md section 4, C04",
     ),
+    "C05": (
+        "Hypothesis generation of source modules with 1-3 one-line helpers (bodies, parameter lists, call shapes, name collisions); "
+        "oracle = CPython calling the real lambda (and helpers) vs CPython evaluating the emitted lambda with only the helpers "
+        "left as calls by name bound + static free-variable check",
+        "Every generated module passes a lambda that calls captured single-return helpers to Select; the value python computes by "
+        "calling the real lambda on a sample element is the reference; the emitted lambda (helpers inlined) is evaluated with only "
+        "those helper names bound that still occur in it and must give the same value; no other free name may appear.",
+        "Helper bodies are closed over parameters and other helpers; sample element has int/float/sequence members.",
+        "DESIGN.md section 4, C05",
+    ),
 }
 
 NOT_YET = "check not built yet in this round (work in progress; see DESIGN.md section 4 for the planned generator/oracle)"
